@@ -57,7 +57,9 @@ def check_C17(run):
 def check_roundtrip(run, prop):
     run.model("AvroSystem", "AvroSystem_thorough" if run.thorough() else "AvroSystem_quick")
     run.model("MC_Wire", "MC_Wire_thorough" if run.thorough() else "MC_Wire_quick")
-    out, meta = run.drive(prop)
+    cases, g = V.generate(run.scratch, "MC_SchemaGen", "MC_SchemaGen")
+    run.models.append(g)
+    out, meta = run.drive(prop, cases=cases)
     total, rejected, states, _ = V.judge(run.scratch, "Trace_Codec", out)
     cov = std_cov(run, meta, total, states,
                   "one event per (struct type, value sequence, codec, block size, flush pattern, reader kind); keys are path|feature-set of the type; distinct_nontrivial counts distinct keys")
@@ -229,8 +231,9 @@ def check_C14(run):
 
 
 def check_C15(run):
-    run.model("MC_SchemaGen")
-    out, meta = run.drive("C15")
+    cases, g = V.generate(run.scratch, "MC_SchemaGen", "MC_SchemaGen")
+    run.models.append(g)
+    out, meta = run.drive("C15", cases=cases)
     total, rejected, states, _ = V.judge(run.scratch, "Trace_Schema", out)
     cov = std_cov(run, meta, total, states,
                   "29 compile-time types (every tag combination, unexported, embedded value and pointer, one struct type in several positions, four self-referential shapes, unsupported kinds, named primitives) "
